@@ -354,6 +354,7 @@ func runC17(r *Run) {
 			}
 		}
 	}
+	c17SharedAddresses(r)
 	// long inputs: kept elements at every residue of the index modulo 64 (word-sized bookkeeping must not lose any)
 	{
 		long := make([]S1, 150)
@@ -677,6 +678,7 @@ func runC18(r *Run) {
 		}
 		r.Sample(map[string]interface{}{"expression": p.e, "datum": describe(p.d), "outcome_without_options": base})
 	}
+	c18AfterCreation(r)
 	// the hook's replacement value is what the operators see
 	for _, t := range []struct {
 		e    string
@@ -735,8 +737,7 @@ func runC13(r *Run) {
 		if ev.Expression() != e {
 			r.Violate("expression-not-source", e, map[string]interface{}{"expression": e}, "Expression() = "+ev.Expression())
 		}
-		var p0 []string
-		tree0 := sExpr(ev.VerifAST(), &p0)
+		tree0 := treeSnapshot(ev.VerifAST())
 		var trace []string
 		for k := 0; k < hist; k++ {
 			d := d0
@@ -766,8 +767,7 @@ func runC13(r *Run) {
 			}
 			r.Model(c.cmd(), o, c.desc())
 		}
-		var p1 []string
-		if t1 := sExpr(ev.VerifAST(), &p1); t1 != tree0 {
+		if t1 := treeSnapshot(ev.VerifAST()); t1 != tree0 {
 			r.Violate("tree-modified", e, map[string]interface{}{"expression": e}, "the syntax tree changed during the history")
 		}
 		if ev.Expression() != e {
@@ -777,6 +777,7 @@ func runC13(r *Run) {
 			r.Sample(map[string]interface{}{"expression": e, "history_outcomes": trace})
 		}
 	}
+	c13InPlaceAndNested(r, n/2, hist)
 	// filters
 	for i := 0; i < n/2; i++ {
 		rng = NewRng(mix(r.Seed, strHash("C13f"), uint64(i)))
@@ -849,8 +850,7 @@ func runC12(r *Run) {
 			}
 			// a fresh evaluator shared by the goroutines: first use happens concurrently
 			shared, _ := bexpr.CreateEvaluator(e, os_.o()...)
-			var p0 []string
-			tree0 := sExpr(shared.VerifAST(), &p0)
+			tree0 := treeSnapshot(shared.VerifAST())
 			var wg sync.WaitGroup
 			var mu sync.Mutex
 			bad := map[string]bool{}
@@ -879,8 +879,7 @@ func runC12(r *Run) {
 			for b := range bad {
 				r.Violate("concurrent-result-differs", e, map[string]interface{}{"expression": e, "options": os_.name}, b)
 			}
-			var p1 []string
-			if sExpr(shared.VerifAST(), &p1) != tree0 {
+			if treeSnapshot(shared.VerifAST()) != tree0 {
 				r.Violate("tree-modified", e, map[string]interface{}{"expression": e}, "the shared syntax tree changed")
 			}
 		}
@@ -922,6 +921,79 @@ func runC12(r *Run) {
 		r.Evaluations += G * calls * 2
 		for b := range bad {
 			r.Violate("concurrent-filter-differs", e, map[string]interface{}{"expression": e}, b)
+		}
+	}
+	// types no call has met before, met by several goroutines at once (anything remembered per type is first written here)
+	{
+		fmt.Fprintf(os.Stderr, "CASE fresh types\n")
+		needle, other := "needle", "x"
+		shared := map[string]*bexpr.Evaluator{}
+		for _, e := range []string{"needle in L", "L contains needle", "needle not in L", "any L as x { x == needle }", "L is not empty", "L.0 == needle", "any M as k, v { v == needle }", "needle in M"} {
+			if ev, err := bexpr.CreateEvaluator(e); err == nil {
+				shared[e] = ev
+			}
+		}
+		var wg sync.WaitGroup
+		var mu sync.Mutex
+		bad := map[string]bool{}
+		for g := 0; g < G; g++ {
+			wg.Add(1)
+			go func(g int) {
+				defer wg.Done()
+				for k := 0; k < calls; k++ {
+					n := 1 + k // every goroutine meets the n-th type at about the same time
+					var elemT reflect.Type
+					switch k % 4 {
+					case 0:
+						elemT = reflect.TypeOf(&needle)
+					case 1:
+						elemT = strT
+					case 2:
+						elemT = reflect.PtrTo(reflect.TypeOf(&needle))
+					default:
+						elemT = ifaceT
+					}
+					arr := reflect.New(reflect.ArrayOf(n, elemT)).Elem()
+					for j := 0; j < n; j++ {
+						var v reflect.Value
+						s := &other
+						if j == n-1 && g%2 == 0 {
+							s = &needle
+						}
+						switch k % 4 {
+						case 0:
+							v = reflect.ValueOf(s)
+						case 1:
+							v = reflect.ValueOf(*s)
+						case 2:
+							v = reflect.ValueOf(&s)
+						default:
+							v = reflect.ValueOf(*s)
+						}
+						arr.Index(j).Set(v)
+					}
+					st := reflect.StructOf([]reflect.StructField{{Name: "L", Type: arr.Type()}, {Name: "M", Type: reflect.MapOf(strT, arr.Type())}})
+					d := reflect.New(st).Elem()
+					d.Field(0).Set(arr)
+					mp := reflect.MakeMap(d.Field(1).Type())
+					d.Field(1).Set(mp)
+					for e, ev := range shared {
+						o := evalObs(ev, d.Interface())
+						o2 := exprObs(e, d.Interface())
+						if o != o2 {
+							mu.Lock()
+							bad[fmt.Sprintf("%s on a fresh [%d]%s: shared evaluator %s, own evaluator %s", e, n, elemT, o, o2)] = true
+							mu.Unlock()
+						}
+					}
+				}
+			}(g)
+		}
+		wg.Wait()
+		r.Evaluations += G * calls * len(shared)
+		r.Seen("fresh-types")
+		for b := range bad {
+			r.Violate("concurrent-result-differs", "fresh-types", map[string]interface{}{"family": "fresh types"}, b)
 		}
 	}
 	r.Sample(map[string]interface{}{"expression": exprs[6], "goroutines": G, "calls_per_goroutine": calls})
